@@ -4,7 +4,7 @@
      MIP/geom/forcad.py             every entry of the mcnp2cad table
      Surface/ConversionSurfaceMCNPToT4.py
                                     conversion_surface_params, convert_plane /
-                                    cylinder / sphere / special_quadric / quadric /
+                                    cylinder / sphere / special_quadric (sq_to_gq) / quadric /
                                     torus / cone, eval_quadric, convert_mcnp_surface
      Surface/SurfaceCollection.py   join
      Surface/CollectionDict.py      number_items
@@ -307,7 +307,8 @@ Definition eval_quadric (q : list T) (pt : vec) : res T :=
   Ok (q0 * sq x + q1 * sq y + q2 * sq z + q3 * x * y + q4 * y * z + q5 * z * x
       + q6 * x + q7 * y + q8 * z + q9).
 
-Definition sq_to_gq (a b c d e f g x y z : T) : list T :=
+(* the SQ -> GQ expansion (first half of Python's sq_to_gq) *)
+Definition sq_expand (a b c d e f g x y z : T) : list T :=
   let two := s2 S in
   [a; b; c; zero; zero; zero;
    two * d - two * a * x;
@@ -315,13 +316,21 @@ Definition sq_to_gq (a b c d e f g x y z : T) : list T :=
    two * f - two * c * z;
    a * sq x + b * sq y + c * sq z - two * (d * x + e * y + f * z) + g].
 
-Definition convert_special_quadric (c : cad) : res t4surf :=
-  do a <- compl c 0; do b <- compl c 1; do c' <- compl c 2; do d <- compl c 3;
-  do e <- compl c 4; do f <- compl c 5; do g <- compl c 6; do x <- compl c 7;
-  do y <- compl c 8; do z <- compl c 9;
-  let gq := sq_to_gq a b c' d e f g x y z in
+(* ConversionSurfaceMCNPToT4.sq_to_gq(sq_params): the expansion, negated when
+   the quadric is positive at (x, y, z) *)
+Definition sq_to_gq (prm : list (option T)) : res (list T) :=
+  let get i := match nth_error prm i with
+               | Some (Some v) => Ok v | Some None => Err EType | None => Err EIndex end in
+  do a <- get 0%nat; do b <- get 1%nat; do c' <- get 2%nat; do d <- get 3%nat;
+  do e <- get 4%nat; do f <- get 5%nat; do g <- get 6%nat; do x <- get 7%nat;
+  do y <- get 8%nat; do z <- get 9%nat;
+  let gq := sq_expand a b c' d e f g x y z in
   do v <- eval_quadric gq (x, y, z);
-  Ok (QUAD, if zero <? v then map (sneg S) gq else gq).
+  Ok (if zero <? v then map (sneg S) gq else gq).
+
+(* convert_special_quadric(val) = T4S.QUAD, sq_to_gq(val.compl_param) *)
+Definition convert_special_quadric (c : cad) : res t4surf :=
+  do gq <- sq_to_gq (c_srf c); Ok (QUAD, gq).
 
 Fixpoint all_some (l : list (option T)) : res (list T) :=
   match l with
